@@ -27,6 +27,7 @@ def callable? (t : String) : Option Callable :=
   | ["n", n] => some (.named n)
   | ["m", o, f] => some (.method o f)
   | ["f", n] => some (.func n)
+  | ["o", c] => some (.object c)
   | _ => none
 
 /-- a declaration of the setup phase: refused → remember the refusal, keep the state -/
